@@ -469,10 +469,12 @@ func (enc Encryptor) encryptZeroSkFromC1QP(sk *SecretKey, ct Element[ringqp.Poly
 	}
 
 	ringQP.NTT(c0, c0)
-	// ct[1] is assumed to be sampled in of the Montgomery domain,
-	// thus -as will also be in the Montgomery domain (s is by default), therefore 'e'
-	// must be switched to the Montgomery domain.
-	ringQP.MForm(c0, c0)
+	// ct[1] is uniform, hence can be seen as already being in the Montgomery domain when
+	// ct.IsMontgomery is set: -as is then also in the Montgomery domain (s is by default)
+	// and 'e' must be switched to it.
+	if ct.IsMontgomery {
+		ringQP.MForm(c0, c0)
+	}
 
 	// (-a*sk + e, a)
 	ringQP.MulCoeffsMontgomeryThenSub(c1, sk.Value, c0)
